@@ -73,6 +73,16 @@ class Mon:
         self.eng = yq.engine()
         self.ctx = yaql.create_context()
         self.stmts = {}
+        from yaql import legacy as ylegacy
+        from yaql.language import conventions as yconv
+        self.worlds = {
+            'legacy': (ylegacy.YaqlFactory().create(), ylegacy.create_context()),
+            'legacy-functions-current-engine': (yq.engine(), ylegacy.create_context()),
+            'delegates': (yq.engine(allow_delegates=True), yaql.create_context(delegates=True)),
+            'python-convention': (yq.engine(), yaql.create_context(convention=yconv.PythonConvention())),
+            'no-sets-no-queries': (yq.engine(), yaql.create_context(no_sets=True, queries=False, regex=False, datetime=False)),
+        }
+        self.world_names = sorted(self.worlds)
         self.cells = set()
         self.reach = hooks.Reach()
         w = self.reach.watch
@@ -94,18 +104,34 @@ class Mon:
         self.reach.flush(self.rec)
         self.reach.stop()
 
-    def stmt(self, text):
-        st = self.stmts.get(text)
+    def stmt(self, text, world=None):
+        st = self.stmts.get((world, text))
         if st is None:
-            st = self.stmts[text] = self.eng(text)
+            st = self.stmts[(world, text)] = (self.worlds[world][0] if world else self.eng)(text)
         return st
 
     def run(self, text, **vars):
-        ctx = self.ctx.create_child_context()
+        got = self.run_in(None, text, **vars)
+        # the scalar operators mean the same in the other worlds a host can set up
+        self.n_runs = getattr(self, 'n_runs', 0) + 1
+        w = self.world_names[self.n_runs % len(self.world_names)]
+        if self.n_runs % 3 == 0:
+            other = self.run_in(w, text, **vars)
+            if other[0] == 'value' and isinstance(other[1], tuple):
+                other = ('value', list(other[1]))      # the legacy engine keeps tuples
+            self.rec.count('world.' + w)
+            if not self.agree(other, got) and not (other[0] == got[0] == 'value' and other[1] == got[1] and type(other[1]) is type(got[1])):
+                self.rec.violation('scalar-operator-depends-on-context-flavour:%s' % w,
+                                   '%s with %r gives %r in the default world and %r in the %s world' % (text, vars, got, other, w),
+                                   {'op': text, 'a': vars.get('a'), 'b': vars.get('b'), 'form': 'world', 'arity': 0})
+        return got
+
+    def run_in(self, world, text, **vars):
+        ctx = (self.worlds[world][1] if world else self.ctx).create_child_context()
         for k, v in vars.items():
             ctx[k] = v
         try:
-            return ('value', self.stmt(text).evaluate(context=ctx))
+            return ('value', self.stmt(text, world).evaluate(context=ctx))
         except yexc.NoMatchingFunctionException:
             return ('error', ms.NOMATCH)
         except (OverflowError, MemoryError):
